@@ -59,3 +59,30 @@ def unflagKey (s : Str) : Str × Bool × Option Str :=
   if contains cplxMark s1 then (removeAll cplxMark s1, true, arr) else (s1, false, arr)
 
 end JKey
+
+/-! ## the shape of an array after `tolist()` / `np.asarray` -/
+namespace JShape
+/-- a JSON value as far as array shapes are concerned -/
+inductive J where
+  | num : J
+  | arr : List J → J
+
+/-- `ndarray.tolist()` of an array of the given shape -/
+def nest : List Nat → J
+  | [] => .num
+  | n :: r => .arr (List.replicate n (nest r))
+
+/-- the shape `np.asarray` infers from a (regular) nested list: lengths along the first
+branch; an empty list ends the descent -/
+def shapeOf : J → List Nat
+  | .num => []
+  | .arr [] => [0]
+  | .arr (x :: xs) => (xs.length + 1) :: shapeOf x
+
+/-- the shape cut after its first zero-length axis -/
+def cut : List Nat → List Nat
+  | [] => []
+  | 0 :: _ => [0]
+  | (n + 1) :: r => (n + 1) :: cut r
+end JShape
+
